@@ -2,4 +2,4 @@
 # round 7 (short round: C05, C12, C13, C17): S <name> <check to run> <dir> "<breaks>||<needs>" [<property the change was written against>]
 cd "$(dirname "$(readlink -f "$0")")"
 S() { [ -f $3/patch.diff ] || { echo "SEED $1: no patch in $3"; return; }; SAVE=$1 NEEDS="$4" TARGET=$5 ./seedcheck.sh $2 $3 2>&1 | head -1 | cut -c1-260; }
-. ./seedsave7.list
+if [ -n "$1" ]; then grep -- "-$1-" seedsave7.list > /dev/shm/ss7.$$; . /dev/shm/ss7.$$; rm -f /dev/shm/ss7.$$; else . ./seedsave7.list; fi
